@@ -544,7 +544,7 @@ Qed.
 Lemma coeff_unique r1 r2 : wfc r1 -> wfc r2 -> (is_int r1 <-> is_int r2) -> cq r1 == cq r2 -> r1 = r2.
 Proof.
   intros W1 W2 K V. destruct r1 as [a|a b], r2 as [c|c d]; cbn in K; try tauto.
-  - rewrite !cq_int in V. apply inject_Z_injective in V. Show. congruence.
+  - rewrite !cq_int in V. apply (proj1 (inject_Z_injective a c)) in V. congruence.
   - pose proof (canon_qval_unique (Rat a b) (Rat c d) W1 W2 V) as E. congruence.
 Qed.
 
@@ -639,9 +639,10 @@ Lemma compare_total_antisym_coeff x y : wfc x -> wfc y ->
             (c = 0 <-> cq x == cq y) /\ (c = -1 <-> (cq x < cq y)%Q) /\ (c = 1 <-> (cq y < cq x)%Q).
 Proof.
   intros Hx Hy. rewrite !compare_coeff by assumption. rewrite <- (Qcompare_antisym (cq x) (cq y)).
-  rewrite Qeq_alt, Qlt_alt, (Qlt_alt (cq y)). rewrite <- (Qcompare_antisym (cq x) (cq y)).
-  destruct (cq x ?= cq y)%Q; cbn [zcmp CompOpp]; eexists; (split; [| split; [reflexivity | split; [reflexivity |]]]);
-    try tauto; repeat split; intros; try lia; try discriminate.
+  destruct (cq x ?= cq y)%Q eqn:C; cbn [zcmp CompOpp]; eexists;
+    (split; [| split; [reflexivity | split; [reflexivity |]]]); try tauto;
+    rewrite Qeq_alt, Qlt_alt, (Qlt_alt (cq y)); rewrite <- (Qcompare_antisym (cq x) (cq y)), C; cbn [CompOpp];
+    repeat split; intros; try lia; try discriminate; try reflexivity.
 Qed.
 
 Lemma le_trans_coeff x y z : wfc x -> wfc y -> wfc z ->
